@@ -13,6 +13,7 @@
 """
 import copy
 import itertools
+import os
 import warnings
 from fractions import Fraction as F
 
@@ -651,6 +652,21 @@ def repro_watch(hist, name, expect):
     return body
 
 
+_INFLIGHT = os.path.join(os.environ.get('VERIF_SCRATCH', '/var/tmp/dimod-verif'), f'c05-inflight-{os.getpid()}.py')
+
+
+def inflight(ctx, hist, doing='about to run'):
+    """the history that is running, as a script, kept in a file the crash handler of `harness/main.py` turns into the repro: if the
+    interpreter dies inside the call (abort / failed assertion / segfault in the native code) the concrete failing input is not lost"""
+    try:
+        with open(_INFLIGHT, 'w') as fh:
+            fh.write('# the interpreter died while running (or reading the model after) the LAST call of this history\n' + repro_unexpected(hist)
+                     + 'print("survived")\n')
+        ctx.mark(f'inflight-script: {_INFLIGHT} | {doing} `{hist[-1].splitlines()[-1][:300]}` (step {len(hist)} of a history on one CQM)')
+    except OSError:
+        pass
+
+
 def check_watched(ctx, orig, hist):
     """`orig` = (object, state, name in the repro script, canonical state, site, input class): it must still be in that state"""
     if orig is None or state(orig[0]) == orig[1]:
@@ -835,6 +851,8 @@ def check_accessors(ctx, r, cqm, ref, hist, site, name='cqm'):
         want = ref_accessors(ref, p)
         if got != want:
             bad = sorted(k for k in set(got) | set(want) if got.get(k) != want.get(k))
+            if 'raised' in got:
+                bad = ['raised']; want = dict(want, raised=None)
             ctx.fail('property', site, 'read accessors of an expression: ' + ', '.join(bad[:4]),
                      f'after the history, `{esrc}` (private order {order_class(ref, p)}) answers {bad[0]} = {got.get(bad[0])!r}; '
                      f'the polynomial it stands for gives {want.get(bad[0])!r}',
@@ -1376,6 +1394,7 @@ def one_history(ctx, r, nops, out):
         # ---- run on the real object
         before = state(cqm)
         hist.append(code)
+        inflight(ctx, hist)
         ns = dict(cqm=cqm, BQM=BQM, QM=QM, np=np, copy=copy)
         outcome = 'ok'
         try:
@@ -1388,7 +1407,13 @@ def one_history(ctx, r, nops, out):
                      f'`{code.splitlines()[-1]}` raised {type(e).__name__}: {e}',
                      repro=repro_unexpected(hist), detail=dict(history=list(hist)))
             return
-        after = state(cqm)
+        try:
+            after = state(cqm)
+        except Exception as e:  # noqa — reading the model must never raise
+            ctx.fail('property', classify(k, line, ref, None), 'reading the model raises',
+                     f'after `{code.splitlines()[-1]}` ({outcome}) reading the variables / terms of the model raised {type(e).__name__}: {e}',
+                     repro=repro_unexpected(hist) + SHOW_SRC + 'print(state(cqm))\n', detail=dict(history=list(hist)))
+            return
         tgt = ns['new'] if (try_new and outcome == 'ok') else cqm
         srcs = ''
         if k in ('objm', 'conm', 'conc', 'discm', 'discc'):
@@ -1427,6 +1452,7 @@ def one_history(ctx, r, nops, out):
         want = res.show(canon=True) if (try_new and sout == 'ok') else ref2.show(canon=True)
         ctx.case((line, before), nontrivial=(after != before) or outcome != 'ok' or bool(try_new),
                  sample=dict(history=list(hist)) if len(hist) == 5 else None)
+        inflight(ctx, hist, 'reading the model after')
         site = classify(k, line, ref, None)
         if (outcome == 'ok') != (sout == 'ok'):
             sc = site_class or (site, 'accept/reject')
@@ -1513,6 +1539,10 @@ def run(ctx):
         one_history(ctx, r, 30, out)
         if len([f for f in ctx.failures if f['kind'] == 'property']) >= 12:
             break
+    try:
+        os.unlink(_INFLIGHT)
+    except OSError:
+        pass
     # deep copies continue the same model line: the driver needs no op for them
     lines = [o['line'] for o in out]
     got = run_driver('cqmdriver', lines)
